@@ -134,23 +134,28 @@ def describe(e):
 def main(chk):
     core.setup_repo_path()
     quick = chk.tier == "quick"
-    labels, depth, maxleaves = ([0, 1, 2], 2, 2) if quick else ([0, 1, 2], 2, 4)
+    labels = [0, 1, 2]
+    configs = [(1, 3), (2, 2)] if quick else [(1, 4), (2, 4)]      # (Depth, MaxLeaves): wide, deep
     nseps = 2 if quick else 4
-    cfg = {"constants": {"Labels": "{%s}" % ", ".join(map(str, labels)), "Depth": str(depth),
-                         "MaxLeaves": str(maxleaves)},
-           "invariants": ["C18_RolloutInvertsFlatten", "C18_NoCollision"], "view": "View"}
-    res = chk.model_check("MC_Rollout", cfg, dump=True, timeout=3000)
     events = []
-    for st in core.load_dump(res, only="todo = {}"):
-        if not st["result"]:
-            continue
-        seps = [SEPARATORS[0]] + chk.rng.sample(SEPARATORS[1:], nseps - 1)
-        for sep in seps:
-            ev = run_case(st["tree"], bool(st["relaxed"]), st["order"], sep, labels, chk.rng)
-            ev.update({"id": len(events) + 1, "tree": st["tree"], "order": st["order"], "sep": sep})
-            events.append(ev)
-            chk.count("sep_" + sep)
-        chk.count("leaves_%d" % len(st["order"]))
+    for depth, maxleaves in configs:
+        cfg = {"constants": {"Labels": "{%s}" % ", ".join(map(str, labels)), "Depth": str(depth),
+                             "MaxLeaves": str(maxleaves)},
+               "invariants": ["C18_RolloutInvertsFlatten", "C18_NoCollision"], "view": "View"}
+        res = chk.model_check("MC_Rollout", cfg, name="C18_MC_Rollout_%d_%d" % (depth, maxleaves), dump=True,
+                              timeout=3000)
+        keep = 1.0 if quick or depth == 1 else 0.2
+        for st in core.load_dump(res, only="todo = {}"):
+            if not st["result"] or (keep < 1.0 and chk.rng.random() > keep):
+                continue
+            seps = [SEPARATORS[0]] + chk.rng.sample(SEPARATORS[1:], nseps - 1)
+            for sep in seps:
+                ev = run_case(st["tree"], bool(st["relaxed"]), st["order"], sep, labels, chk.rng)
+                ev.update({"id": len(events) + 1, "tree": st["tree"], "order": st["order"], "sep": sep})
+                events.append(ev)
+                chk.count("sep_" + sep)
+            chk.count("leaves_%d" % len(st["order"]))
+    depth, maxleaves = configs[-1]
     chk.require(len(events) >= 3000, "fewer than 3000 rollout calls (%d)" % len(events))
     slim = [{k: e[k] for k in ("id", "tree", "order", "exc", "res", "relaxed", "relaxed_kept", "leaves_identical",
                                "input_unchanged", "identity_ok")} for e in events]
